@@ -1,4 +1,8 @@
-use std::{cmp::min, num::NonZeroU64, sync::Arc};
+use std::{
+    cmp::{max, min},
+    num::NonZeroU64,
+    sync::Arc,
+};
 
 use anyhow::Context;
 
@@ -175,7 +179,9 @@ impl<T: Target + 'static> Loop<T> {
                             tracing::error!("updater job failed: {err:#}");
                             interval.reset_after(backoff);
                             tracing::info!("trying in {} seconds", backoff.as_secs());
-                            backoff = min(self.period, backoff * 2);
+                            // never retry sooner than the previous attempt did: the cap is the
+                            // period, but not less than the initial back-off
+                            backoff = min(max(self.period, MIN_BACKOFF), backoff * 2);
                         }
                     }
                 }
